@@ -3,6 +3,8 @@
 package dagaz
 
 import (
+	"math"
+
 	"github.com/aukilabs/hagall/internal/verifnd"
 )
 
@@ -272,6 +274,53 @@ func VerifC08RayVertical() {
 	hit, _ := g.IntersectQuad(Ray{From: Vector3f{x, 1, z}, To: Vector3f{x, -1, z}})
 	verifnd.Assert(hit == nil, "C08.ray_vertical.empty_grid_no_hit")
 	verifnd.Reach("C08.ray_vertical.done")
+}
+
+// VerifC08RayMenu: slanted ground-plane rays on CONCRETE coordinates (the cell walk with a symbolic
+// coordinate does not finish, see DESIGN §I.6; this is enumeration, not a solver verdict): rays entering the
+// grid from beyond each edge and corner, leaving it from inside, grazing cell borders and its far edge,
+// against a wide, a tall and a square grid holding two planes: no panic, and the walk terminates.
+func VerifC08RayMenu() {
+	g := NewRegularGrid(1, 1, 2)
+	switch verifnd.Choice(3) {
+	case 0:
+		g.InsertQuad(Quad{Center: Vector3f{5, 0, 0.5}, Extents: Vector3f{0.5, 0, 0.5}, Normal: Vector3f{0, 1, 0}})
+	case 1:
+		g.InsertQuad(Quad{Center: Vector3f{0.5, 0, 5}, Extents: Vector3f{0.5, 0, 0.5}, Normal: Vector3f{0, 1, 0}})
+	default:
+		g.InsertQuad(menuQuad(0))
+		g.InsertQuad(menuQuad(4))
+	}
+	coord := func(k int) float32 {
+		switch k {
+		case 0:
+			return -3 // beyond the near edge
+		case 1:
+			return 0 // on the near edge
+		case 2:
+			return 1 // inside the first cell
+		case 3:
+			return 2 // on a cell border
+		case 4:
+			return 6 // on the far edge of the 3-cell axis (beyond the 1-cell axis)
+		case 5:
+			return 9 // beyond the far edge
+		case 6:
+			return 1e9 // far away
+		case 7:
+			return -3e38 // about as far as a float32 goes
+		case 8:
+			return float32(math.Inf(1))
+		default:
+			return float32(math.NaN())
+		}
+	}
+	fx, fz, tx, tz := coord(verifnd.Choice(10)), coord(verifnd.Choice(10)), coord(verifnd.Choice(10)), coord(verifnd.Choice(10))
+	// the walk over the cells returns: a ray crosses a bounded number of cells however long it is
+	verifnd.Terminates(200000, "C08.ray_menu.walk_returns")
+	g.IntersectQuad(Ray{From: Vector3f{fx, 1, fz}, To: Vector3f{tx, -1, tz}})
+	verifnd.Terminates(0, "")
+	verifnd.Reach("C08.ray_menu.done")
 }
 
 // oneFree returns six coordinates: the one chosen by which is an arbitrary float32 (every bit pattern,
